@@ -21,7 +21,11 @@ PROP = dict(
          "server max QoS 0/1/2 x receive maximum 1 x obscure-not-authorized.  writesched: 60 (thorough 1500) forced "
          "interleavings of the write loop and the handler at the schedule point write.beforeLock of WritePacket: the "
          "response (PINGRESP/SUBACK/PUBACK) enters WritePacket while 2-4 publishes for the same client are queued, "
-         "the queue is drained, then the response takes the lock (or the other way round); non-trivial = the request requires a "
+         "the queue is drained, then the response takes the lock (or the other way round); every fifth schedule is a "
+         "failed queued write: the write loop is held with the first packet until a burst of 1-2 small, one oversized "
+         "(refused for the MQTT 5 subscriber's Maximum Packet Size 100) and 0-2 more small publishes is queued, so the "
+         "refused packet is met with a non-empty queue behind it, then the subscriber sends a request (answered, and "
+         "all small publishes on the wire, or the case counts as unanswered); non-trivial = the request requires a "
          "response; distinct = distinct (context, request, observation) lines",
     modelled="server.go processPacket/processPublish (up to the ack)/processPubrel/processSubscribe/"
              "processUnsubscribe/processPingreq/receivePacket: the response decision only",
